@@ -1030,4 +1030,47 @@ theorem hullLoopIdx_done (negMax eps100 : K) (pts : Array (V2 K)) (fuel i : Nat)
             · rw [invalidate_size] at hk; omega
           · rename_i hnone
             exact ih _ _ (ext (fun _ => hnone))
+/-- `support_point_id(dir, points)` with the `unwrap` replaced by the model's default -/
+def supAll (negMax : K) (pts : Array (V2 K)) (d : V2 K) : Nat :=
+  (indexedSupportPointId negMax d pts (List.range pts.size)).getD 0
+/-- the `!p1p2.norm_squared().is_zero()` test of `get_initial_polyline` for direction `d` -/
+def differs (negMax : K) (pts : Array (V2 K)) (p1 : Nat) (d : V2 K) : Bool :=
+  !(neq ((ptAt pts (supAll negMax pts d)).sub (ptAt pts p1)).normSq 0)
+
+theorem pickP2Step_eq (negMax : K) (pts : Array (V2 K)) (p1 : Nat) (acc : Nat × Bool) (d : V2 K) :
+    pickP2Step negMax pts p1 acc d = if acc.2 then acc else (supAll negMax pts d, differs negMax pts p1 d) := rfl
+
+theorem pickP2_three (negMax : K) (pts : Array (V2 K)) (p1 : Nat) (d1 d2 d3 : V2 K) :
+    ([d1, d2, d3].foldl (pickP2Step negMax pts p1) (p1, false)).1 =
+      if differs negMax pts p1 d1 then supAll negMax pts d1
+      else if differs negMax pts p1 d2 then supAll negMax pts d2 else supAll negMax pts d3 := by
+  simp only [List.foldl_cons, List.foldl_nil, pickP2Step_eq]
+  generalize differs negMax pts p1 d1 = b1
+  generalize differs negMax pts p1 d2 = b2
+  cases b1 <;> cases b2 <;> simp
+
+/-- the point index `p2` chosen by the three-direction loop of `get_initial_polyline` -/
+def pickP2 (negMax : K) (pts : Array (V2 K)) (p1 : Nat) : Nat :=
+  if differs negMax pts p1 ⟨-1, -0⟩ then supAll negMax pts ⟨-1, -0⟩
+  else if differs negMax pts p1 ⟨-0, -1⟩ then supAll negMax pts ⟨-0, -1⟩ else supAll negMax pts ⟨0, 1⟩
+
+theorem pickP2_eq (negMax : K) (pts : Array (V2 K)) (p1 : Nat) :
+    (initDirs.foldl (pickP2Step negMax pts p1) (p1, false)).1 = pickP2 negMax pts p1 :=
+  pickP2_three negMax pts p1 _ _ _
+
+theorem initialPolyline_none_unfold (negMax eps100 : K) (pts : Array (V2 K)) :
+    initialPolyline negMax eps100 pts = none ↔
+      pts.size < 2 ∨ indexedSupportPointId negMax ⟨1, 0⟩ pts (List.range pts.size) = none ∨
+      ∃ p1, indexedSupportPointId negMax ⟨1, 0⟩ pts (List.range pts.size) = some p1 ∧ pickP2 negMax pts p1 = p1 := by
+  unfold initialPolyline
+  by_cases hsz : pts.size < 2
+  · simp [hsz]
+  · simp only [hsz, if_false, false_or]
+    cases hs : indexedSupportPointId negMax ⟨1, 0⟩ pts (List.range pts.size) with
+    | none => simp
+    | some p1 =>
+      simp only [pickP2_eq]
+      by_cases he : p1 = pickP2 negMax pts p1
+      · simp [← he]
+      · simp [he, Ne.symm he]
 end C12
